@@ -100,7 +100,6 @@ package cty
 //@   ensures[C04] empty: (=> (and (not (is_marked val)) (vals_unmarked srcs (Slice.len srcs))) (= result val))
 //@   ensures[C04] payload: (and (= (cty.Value.ty result) (cty.Value.ty val)) (= (inner_v result) (inner_v val)))
 //@   ensures[C04] union: (forall ((k Any)) (! (= (select (marks_of result) k) (or (select (marks_of val) k) (in_any_valmarks srcs (Slice.len srcs) k))) :pattern ((select (marks_of result) k))))
-//@   ensures[C04] single: (=> (= (Slice.len marks) 1) (forall ((k Any)) (! (= (select (marks_of result) k) (or (select (marks_of val) k) (select (MapC<Any~Unit>.dom (markmap_rel marks 0)) k))) :pattern ((select (marks_of result) k)))))
 //@   ensures[C04,C06] wf: (wf_marks result)
 //@   ensures[C20] ownmarks: (or (= result val) (< (marks_ptr result) 0))
 //@   loop 1 invariant (and (<= 0 markCount) (<= markCount (* (+ $i 1) 1099511627776)))
